@@ -137,6 +137,7 @@ func contiguityOracle(m *Sim, f *wireFacts) {
 }
 
 func c17EndToEnd(j *Job) {
+	twoInitCases(j, "C17")
 	// negotiation over all 16 option combinations (kind monitor on every packet)
 	extraMon = monOpts{Kind: true}
 	for opt := 0; opt < 16; opt++ {
@@ -189,6 +190,118 @@ func c17EndToEnd(j *Job) {
 		j.Explore("wire/"+mode.Name+"/"+strings.Repeat("w", 3), xferScenario(spec, res), Budget{D: d}, nil)
 		if j.capped() {
 			return
+		}
+	}
+}
+
+// twoInitScenario: a real server receives two INITs with different option sets before any
+// COOKIE-ECHO (a peer instance that went away, or a retry with another configuration) and
+// is then associated by the second one.  Everything the server negotiates - DATA vs I-DATA,
+// FORWARD-TSN kind, zero checksum - must follow the INIT that its cookie answers.
+func twoInitScenario(srvIL, srvZC bool, first, second [2]bool, cksum bool) *Scenario {
+	return &Scenario{
+		Name:    "twoinit",
+		Horizon: 60 * time.Second,
+		Body: func(m *Sim) {
+			cfg := epCfg{Server: true, NoInterleave: !srvIL, ZeroChecksum: srvZC, MTU: 228, RTOMax: 4000, InitTSN: 0xFFFFFFF5}
+			p := newScripted(m, cfg, first[0], first[1])
+			p.dialT = m.Go("dial", func() { m.Dial(0, p.cfg) })
+			p.settle(100 * time.Millisecond)
+			sendInit := func() bool {
+				init := chunkBytes(wINIT, 0, wInitVal(p.tag, p.arwnd, 65535, 65535, p.tsn0, p.initParams()...))
+				w := wNewPacket(5000, 5000, 0)
+				w.rawChunk(init)
+				p.cookie = nil
+				out := p.inject(w.bytes(true))
+				return len(out) > 0 && p.cookie != nil
+			}
+			if !sendInit() {
+				m.Failf("twoinit.base", "no INIT-ACK for the first INIT")
+				c03Teardown(m, p)
+				return
+			}
+			p.ourIL, p.ourZC = second[0], second[1]
+			if !sendInit() {
+				m.Failf("twoinit.base", "no INIT-ACK for the second INIT")
+				c03Teardown(m, p)
+				return
+			}
+			p.inject(p.pkt(chunkBytes(wCOOKIEECHO, 0, p.cookie)))
+			m.S.Join(p.dialT)
+			p.a = m.As[0]
+			if p.a == nil {
+				m.Failf("twoinit.base", "server did not get established by the second cookie: %v", m.Err[0])
+				c03Teardown(m, p)
+				return
+			}
+			a := p.a
+			wantIL := srvIL && second[0]
+			wantZC := second[1] // the peer's advertisement decides what the server may send
+			if a.useInterleaving != wantIL {
+				m.Failf("twoinit.interleaving", "server uses interleaving=%v, the INIT it answered calls for %v (first INIT il=%v, second il=%v, server il=%v)", a.useInterleaving, wantIL, first[0], second[0], srvIL)
+			}
+			s, err := a.OpenStream(3, PayloadTypeWebRTCBinary)
+			if err != nil {
+				m.Failf("twoinit.base", "OpenStream: %v", err)
+				c03Teardown(m, p)
+				return
+			}
+			m.streamsSeen = append(m.streamsSeen, s)
+			ev0 := len(m.W.events)
+			_, _ = s.WriteSCTP(payload(3, 0, 40), PayloadTypeWebRTCBinary)
+			p.settle(0)
+			seen := false
+			for _, ev := range m.W.events[ev0:] {
+				if ev.Kind != "send" || ev.From != 0 || ev.Pkt.dec == nil {
+					continue
+				}
+				for _, c := range ev.Pkt.dec.Chunks {
+					if c.Typ != wDATA && c.Typ != wIDATA {
+						continue
+					}
+					seen = true
+					if (c.Typ == wIDATA) != wantIL {
+						m.Failf("twoinit.kind", "server frames user data as %s towards a peer whose INIT (the second one) negotiated interleaving=%v", wTypeName(c.Typ), wantIL)
+					}
+					zero := be32(ev.Pkt.data[8:12]) == 0
+					if cksum && zero && !wantZC {
+						m.Failf("twoinit.cksum", "server sends a zero checksum although the INIT it answered did not advertise acceptance (the earlier INIT did)")
+					}
+				}
+			}
+			if !seen {
+				m.Failf("twoinit.base", "no DATA emitted by the server")
+			}
+			m.Observe("il=%v zc=%v", a.useInterleaving, a.sendZeroChecksum)
+			c03Teardown(m, p)
+		},
+		Final: func(m *Sim, x *Exec) { generalVerdicts(m, x, false) },
+	}
+}
+
+func twoInitCases(j *Job, prop string) {
+	bools := []bool{false, true}
+	for _, srvIL := range bools {
+		for _, srvZC := range bools {
+			for f := 0; f < 4; f++ {
+				for s := 0; s < 4; s++ {
+					if f == s {
+						continue
+					}
+					first, second := [2]bool{f&1 != 0, f&2 != 0}, [2]bool{s&1 != 0, s&2 != 0}
+					// C17 looks at the interleaving dimension, C13 at the checksum dimension
+					if prop == "C17" && first[0] == second[0] {
+						continue
+					}
+					if prop == "C13" && first[1] == second[1] {
+						continue
+					}
+					j.Explore(fmt.Sprintf("twoinit/srv-il%v-zc%v/first%v/second%v", srvIL, srvZC, first, second), twoInitScenario(srvIL, srvZC, first, second, prop == "C13"), Budget{}, nil)
+					if j.capped() {
+						return
+					}
+				}
+			}
 		}
 	}
 }
